@@ -54,7 +54,9 @@ pub fn layers(with_invalid: bool) -> Vec<Layer> {
             COp::UpdateTopic(n(1), n(1), st("yyy"), 0),
             COp::UpdateTopic(n(1), s("xxx"), st("zzz"), 5_000_000),
             COp::CreatePartitions(n(1), n(1), 1),
-            COp::DeletePartitions(n(1), n(1), 1),
+            // two: every partition of a two-partition topic, more than there are of a one-partition topic
+            // (the server clamps the count; the journal holds the count as requested). One of two: L3
+            COp::DeletePartitions(n(1), n(1), 2),
             COp::Send(n(1), n(1), 1, 1),
             COp::PurgeTopic(n(1), n(1)),
             COp::DeleteStream(n(1)),
